@@ -151,7 +151,7 @@ func gcByKind[V any](kind int, vv gcVal[V]) {
 		e := &collEnv{}
 		i := 0
 		runGC(func() Tree[string, V] { return NewCollationSortedTree[string, V]() },
-			func() string { u := e.define(cSpecH(i%3, 2)); i++; return collUniverse[u] },
+			func() string { u := e.define(cSpecH(i%3, 2)); i++; return collString(u) },
 			func(a, b string) bool { return a == b }, func(a, b string) bool { return a < b }, vv, false)
 	default:
 		vpFail("unknown kind for hGC")
